@@ -401,7 +401,7 @@ class BuiltinMixin:
         if name == "opt_val":
             v = args[0]
             return v.val if isinstance(v, OptV) else v
-        if name in ("py_strip", "py_lower", "py_upper"):
+        if name in ("py_strip", "py_lower", "py_upper", "py_rstrip", "py_lstrip"):
             from . import strings
             return strings.str_method(self, args[0], name[3:], [], {}, fr)
         if name == "np_cast":
